@@ -7,6 +7,9 @@ SPEC = {
         # AddCallback / RemoveCallback / instrument destruction racing Collect, TSan + perturbation shim
         run("e2-callback-churn-vs-collect", "c17_observables", "tsan", 300, 20000, need_lib=True,
             params={"mode": "race"}),
+        # 2..3 readers collected concurrently, each from its own thread, TSan + perturbation shim
+        run("e2-concurrent-readers", "c17_observables", "tsan", 100, 8000, need_lib=True,
+            params={"mode": "readers"}),
         # synchronous Gauge exists in ABI v2 only
         run("e1-sync-gauge-abi2", "c17_observables", "asan-abi2", 0, 100000, need_lib=True, params={"mode": "gauge"},
             tiers=("thorough",)),
@@ -16,20 +19,27 @@ SPEC = {
                   "hist_non_monotone_script": 200, "race_runs_removal_interleaved_with_invocations": 50,
                   "hist_starved_reader": 120, "starved_reader_delta_points_checked": 150,
                   "starved_reader_cumulative_points_checked": 150,
-                  "hist_gauge_repeated_observe": 200, "gauge_points_checked_repeated_observe": 2000},
+                  "hist_gauge_repeated_observe": 200, "gauge_points_checked_repeated_observe": 2000,
+                  "hist_shared_callback_state": 100, "shared_callback_collections_after_partial_remove": 1000,
+                  "conc_readers_runs_mixed_temporality": 20, "conc_readers_runs_common_ticks": 12,
+                  "conc_readers_cumulative_points_checked": 1000, "conc_readers_delta_sums_checked": 1000},
         "thorough": {"hist_removal_between_collections": 15000, "hist_readers_mixed_temporality": 15000,
                      "hist_non_monotone_script": 15000, "race_runs_removal_interleaved_with_invocations": 3000,
                      "sync_gauge_points_checked_fresh": 100000,
                      "hist_starved_reader": 10000, "starved_reader_delta_points_checked": 10000,
                      "starved_reader_cumulative_points_checked": 10000,
-                     "hist_gauge_repeated_observe": 15000, "gauge_points_checked_repeated_observe": 150000},
+                     "hist_gauge_repeated_observe": 15000, "gauge_points_checked_repeated_observe": 150000,
+                     "hist_shared_callback_state": 7500, "shared_callback_collections_after_partial_remove": 75000,
+                     "conc_readers_runs_mixed_temporality": 2000, "conc_readers_runs_common_ticks": 1200,
+                     "conc_readers_cumulative_points_checked": 75000, "conc_readers_delta_sums_checked": 75000},
     },
     "engine": "E1 model-oracle",
     "engines_used": ("E1 model-oracle", "E2 history"),
     "technique": ("scripted observable callbacks (callback j at its n-th invocation reports script[j][n]) driven through "
                   "the real Meter/ObservableRegistry/AsyncMetricStorage under ASan+UBSan and compared with a reference "
                   "model per reader; callback add/remove/destroy racing Collect on real threads under TSan with the "
-                  "perturbation shim"),
+                  "perturbation shim; readers collecting concurrently from their own threads under TSan with the shim, "
+                  "values compared after a quiescent collection per reader"),
     "level_text": ("exploration: seeded histories of AddCallback / RemoveCallback / instrument destruction / Collect by 1..3 "
                    "readers of mixed temporality over observable counters, up-down counters and gauges (int64 and "
                    "double); after every collection the invocation count of every callback (exactly once if registered, "
@@ -39,7 +49,10 @@ SPEC = {
                    "history is directed: one reader collects 34..60 times in a row while the others do not, then they do. Right "
                    "level because the property quantifies over histories and configurations of a stateful pipeline and "
                    "the scripts make both counts and values decidable."),
-    "level_note": ("trusts the model in vf/include/vf_metrics_model.h and harness/c17_observables.cc, gcc ASan/UBSan/TSan; "
+    "level_note": ("in the concurrent-readers run values are judged only after the threads have stopped (last cumulative "
+                   "point / sum of all delta points against the total reported in that reader's last collection), not per "
+                   "in-flight collection; a shared (function, state) pair is judged by invocation counts, its values only "
+                   "in collections whose count was right; trusts the model in vf/include/vf_metrics_model.h and harness/c17_observables.cc, gcc ASan/UBSan/TSan; "
                    "covers only generated histories (<=100 steps, <=3 instruments, <=3 callbacks each, <=6 attribute sets, "
                    "<=3 readers, a reader lags at most 60 collections behind another); sum points for a set that one "
                    "invocation observed more than once are not judged; the synchronous Gauge is only reached in the thorough tier (ABI v2 build); values are not "
@@ -65,14 +78,24 @@ SPEC = {
              "observations the model orders. Non-trivial = more collections than readers; distinct = hash of the "
              "operation sequence. Racing case = 1..2 collecting readers, 1..2 threads adding/removing their own callbacks "
              "20..120 times and possibly destroying an instrument, stable callbacks counted against the number of "
-             "collections. Gauge case (ABI v2) = 5..100 steps of Record(value, attrs)/Collect over 1..2 gauges and "
+             "collections. One sequential case in four (by the case seed) registers one shared (function, state) pair on the "
+             "first 2..3 instruments (same meter, kind, value type, value class; 1..2 attribute sets of its own, one script): "
+             "the registrations are added/removed one by one like any other callback; hist_shared_callback_state counts "
+             "histories with a collection after one registration was removed while another stayed in force. "
+             "Concurrent-readers case = 2..3 readers (first two of different temporality in 2 of 3 cases), 1..2 meters, 2..3 "
+             "observable instruments (counter 5 : up-down 3 : gauge 2, int64|double) with 1..3 attribute sets - in 3 of 4 "
+             "cases the first-created one reports 30..120 sets - each with one callback whose n-th invocation reports "
+             "f(instrument, set, n) (counters strictly increasing); every reader is collected 15..60 times from its own "
+             "thread (half of the cases: all readers start each round together), then once more quiescently. "
+             "Gauge case (ABI v2) = 5..100 steps of Record(value, attrs)/Collect over 1..2 gauges and "
              "1..3 readers."),
     "assumptions": ASSUME_COMMON + [
         "points for attribute sets that the callback did not report in that very collection (sets that disappeared from a script, removed callbacks, destroyed instruments) are don't-care; a delta reader's catch-up point for such a set is added to what that reader 'was last given'",
         "totals of an observable Counter are kept non-negative (they may decrease); NaN/inf are not reported",
         "when one callback invocation observes the same attribute set more than once, an observable gauge must report the most recent of these values (the statement says so; key class suffix ':repeated-observe-in-one-invocation'); for observable counters / up-down counters 'the reported total' is then not unique (the OpenTelemetry API leaves duplicate observations unspecified; other SDKs keep the first) and the sum point is don't-care: counted, never judged, a delta reader's point is added to what that reader 'was last given'",
         "the violation class is <instrument kind>/<single|multi>-reader-<delta|cumulative>, followed by ':starved-reader' for the readers that the configuration of a starved-reader history keeps from collecting during the burst",
-        "callbacks on one instrument report disjoint attribute sets; the same (function, state) pair is never registered twice at the same time",
+        "callbacks on one instrument report disjoint attribute sets; the same (function, state) pair is never registered twice at the same time on the same instrument (it may be registered on several instruments of one meter: key class suffix ':shared-callback-state'; RemoveCallback on one instrument must leave the other registrations in force)",
+        "concurrent readers: 'the reported total' of a reader's collection is the value its own invocation of the callback reported (the callback runs on the collecting thread; a thread-local marker tells the harness which reader it serves); compared after the threads are joined and each reader has collected once more; classes <kind>/concurrent-readers",
         "exact classes (int64, doubles that are multiples of 2^-10) are compared exactly; arbitrary doubles with 1e-9 relative to the magnitudes that went through the SDK's arithmetic; gauge values are compared exactly (no arithmetic)",
         "system_clock is assumed not to step backwards during a case; the harness waits for it to advance between ordered observations (clock-tie independence)",
         "a synchronous gauge point for a set that was not recorded since that reader's previous collection may be absent (don't-care) but, if present, must carry the most recently recorded value"],
